@@ -289,6 +289,44 @@ def oracle(seed, tier):
             if not isinstance(err, ValueError) or fake.requests():
                 res.violation('unknown-not-rejected:%s' % mode, {'mode': mode},
                               'argument outside the allow-list: error %r, %d requests made' % (err, len(fake.requests())))
+        # failing multipart transfers: the AbortMultipartUpload of the cleanup must only carry parameters it has
+        from fakes3 import FaultPlan, InjectedFault
+        for mode, akey in (('upload-multipart', 'ALLOWED_UPLOAD_ARGS'), ('copy-multipart', 'ALLOWED_COPY_ARGS')):
+            names = allowed_names(akey)
+            groups = [[n] for n in names] + [[n for n in names if n.startswith('SSECustomer')],
+                                             [n for n in names if n in ('RequestPayer', 'ExpectedBucketOwner')]]
+            for grp in groups:
+                if not grp:
+                    continue
+                extra = [(n, value_for(n)) for n in grp if not (n in FO and len([g for g in grp if g in FO]) > 1)]
+                fake = FakeS3(fault_plan=FaultPlan([{'op': 'upload_part' if mode.startswith('upload') else 'upload_part_copy',
+                                                      'nth': 0, 'when': 'before', 'exc': lambda: InjectedFault('part')}]))
+                fake.objects[('sb', 'sk')] = DATA
+                err = None
+                try:
+                    with _tm(fake, multipart_threshold=5) as tm:
+                        if mode.startswith('upload'):
+                            tm.upload(io.BytesIO(DATA), 'b', 'k2', extra_args=dict(extra)).result()
+                        else:
+                            tm.copy({'Bucket': 'sb', 'Key': 'sk'}, 'b', 'k2', extra_args=dict(extra)).result()
+                except Exception as e:      # noqa
+                    err = e
+                res.evaluations += 1
+                wit = {'mode': mode + ' with a failing part', 'extra_args': dict(extra)}
+                aborts = fake.requests('abort_multipart_upload')
+                if not isinstance(err, InjectedFault):
+                    res.violation('failing-part-not-reported:%s' % mode, wit, 'expected the part failure, got %r' % err)
+                if len(aborts) != 1:
+                    res.violation('abort-count:%s' % mode, wit, '%d AbortMultipartUpload requests after a failed part' % len(aborts))
+                for r in aborts:
+                    unknown = [k for k in r['args'] if k not in sh['AbortMultipartUpload']]
+                    if unknown:
+                        res.violation('unknown-arg:%s:AbortMultipartUpload:%s' % (mode.split('-')[0], unknown[0]), wit,
+                                      'AbortMultipartUpload received %s, which it does not have' % unknown)
+                for uid, up in fake.uploads.items():
+                    if up['state'] == 'open':
+                        res.violation('left-open-after-failure:%s' % mode, wit, 'upload %s left open (the abort did not reach the service)' % uid)
+                res.nontrivial.add((mode, 'fail', tuple(grp)))
         res.samples.append({'mode': 'copy-multipart', 'extra_args': {'CopySourceIfMatch': 'vCopySourceIfMatch'}})
         res.samples.append({'mode': 'upload-multipart', 'extra_args': {'ChecksumCRC32': 'vChecksumCRC32'}})
     finally:
@@ -391,4 +429,42 @@ def history_oracle(seed, tier):
                 res.samples.append({'history': hist})
     finally:
         shutil.rmtree(tmpdir, ignore_errors=True)
+    return res
+
+
+def provided_size_oracle(seed, tier):
+    """C08: a size supplied during on_queued suppresses the size-discovery request — for downloads and
+    copies, for every size including 0, and the transfer still moves exactly that object."""
+    from s3transfer.subscribers import BaseSubscriber
+    res = OracleResult('C08')
+    for kind in ('download', 'copy'):
+        for size in (0, 1, 5, 11):
+            for thr in (4, 100):
+                data = bytes(range(size))
+                fake = FakeS3()
+                fake.objects[('b', 'k')] = data
+                fake.objects[('sb', 'sk')] = data
+
+                class Sz(BaseSubscriber):
+                    def on_queued(self, future, **kw):
+                        future.meta.provide_transfer_size(size)
+                err = None
+                try:
+                    with _tm(fake, multipart_threshold=thr, multipart_chunksize=4) as tm:
+                        if kind == 'download':
+                            tm.download('b', 'k', io.BytesIO(), subscribers=[Sz()]).result()
+                        else:
+                            tm.copy({'Bucket': 'sb', 'Key': 'sk'}, 'b', 'k2', subscribers=[Sz()]).result()
+                except Exception as e:      # noqa
+                    err = e
+                res.evaluations += 1
+                wit = {'transfer': kind, 'size_supplied_in_on_queued': size, 'multipart_threshold': thr}
+                res.nontrivial.add((kind, size, thr))
+                if err is not None:
+                    res.violation('provided-size-transfer-failed:%s' % kind, wit, '%s with a supplied size raised %r' % (kind, err))
+                heads = fake.requests('head_object')
+                if heads:
+                    res.violation('head-despite-provided-size:%s:%s' % (kind, 'zero' if size == 0 else 'nonzero'), wit,
+                                  'size %d was supplied in on_queued but %d HeadObject request(s) were issued' % (size, len(heads)))
+    res.samples.append(wit)
     return res
